@@ -144,10 +144,15 @@ func runC09(r *R) {
 	// the gun's diagnostics read the request (and its body) before it is sent: they must not change what is sent
 	diag := ""
 	var diagTrace, diagAnsw map[string]interface{}
+	debugLog := false
 	if w.Draw(4) == 0 {
 		tr, dump := w.Bool(), w.Bool()
 		diagTrace = map[string]interface{}{"trace": tr, "dump": dump}
 		diag = fmt.Sprintf("trace=%v dump=%v", tr, dump)
+		// debug-level logging (`log: {level: debug}`): the gun then logs the request and reads the answer's body for its log
+		if debugLog = w.Draw(2) == 0; debugLog {
+			diag += " debug-log"
+		}
 		if f := []string{"", "all", "warning"}[w.Draw(3)]; f != "" {
 			diagAnsw = map[string]interface{}{"enabled": true, "path": "/dev/null", "filter": f}
 			diag += " answlog=" + f
@@ -209,7 +214,7 @@ func runC09(r *R) {
 	if stalls {
 		r.Note("injected-stalls")
 	}
-	res := runHTTPPool(r, httpPoolSpec{Ammo: ammo, Gun: gun, Instances: inst, Tokens: total + 2, RPS: rps, Stalls: stalls, Files: map[string][]byte{"/ammo/ammo.txt": file}},
+	res := runHTTPPool(r, httpPoolSpec{Ammo: ammo, Gun: gun, Instances: inst, Tokens: total + 2, RPS: rps, Stalls: stalls, DebugLog: debugLog, Files: map[string][]byte{"/ammo/ammo.txt": file}},
 		func(nw *simnet.Net) {
 			nw.Latency = lat
 			if chunk > 0 {
